@@ -522,14 +522,15 @@ func main() {
 	b.WriteString("/- GENERATED by harness/cmd/extract from /repo's working tree on every run. Do not edit. -/\n")
 	b.WriteString("namespace Furiko.Facts\n\n")
 	coreFacts(&b, &f)
-	cronrecFacts(&b)    // C02 facts (cronrec.go)
-	cronLoadedFacts(&b) // F24 facts (cron_loaded.go)
-	pendingRefFacts(&b) // F32 facts (jobctl_pending.go)
-	jcstatusFacts(&b)   // C15 facts (jcstatus.go)
-	taskfnFacts(&b)     // C08 C10 C11 C12 facts (taskfn_facts.go)
-	retryFacts(&b)      // C20 facts (retry_facts.go)
-	validationFacts(&b) // C17 facts (validation_facts.go)
-	mutationFacts(&b)   // C16 facts (mutation_facts.go)
+	cronrecFacts(&b)     // C02 facts (cronrec.go)
+	cronLoadedFacts(&b)  // F24 facts (cron_loaded.go)
+	pendingRefFacts(&b)  // F32 facts (jobctl_pending.go)
+	statusWriteFacts(&b) // F31 fact (jobctl_writes.go)
+	jcstatusFacts(&b)    // C15 facts (jcstatus.go)
+	taskfnFacts(&b)      // C08 C10 C11 C12 facts (taskfn_facts.go)
+	retryFacts(&b)       // C20 facts (retry_facts.go)
+	validationFacts(&b)  // C17 facts (validation_facts.go)
+	mutationFacts(&b)    // C16 facts (mutation_facts.go)
 	f.Config = configSectionFacts(&b)
 	f.Options = optionsSectionFacts(&b)
 	b.WriteString("\nend Furiko.Facts\n")
